@@ -535,6 +535,69 @@ func (c *Ctx) cutEdges() {
 	r1, p1 := rel(top, paramObj(info, top.Decl, 0))
 	r2, _ := rel(rec, paramObj(info, rec.Decl, 3))
 	c.Check(r1 == "<" && r2 == "<", "SIBLING", "tree.Tree.CutEdgesMaxLength/threshold-relation", p1, "both sites cross a branch iff Length() < threshold", fmt.Sprintf("the two flood-fill sites compare Length() with the threshold using %q and %q; both must be `<` (a branch equal to the threshold is cut at both sites, or groups depend on where the fill starts)", r1, r2)).Clause = clause
+	// the fill marks exactly the branches it crosses: a mark on a branch it only examined (a removed
+	// one) hides that branch from the outer loop, and the tip behind it then belongs to no group
+	{
+		rinfo := rec.Pkg.TypesInfo
+		var visitedObj types.Object
+		for i := 0; i < rec.Obj.Type().(*types.Signature).Params().Len(); i++ {
+			if p := paramObj(rinfo, rec.Decl, i); p != nil {
+				if sl, ok := p.Type().Underlying().(*types.Slice); ok {
+					if b, ok := sl.Elem().Underlying().(*types.Basic); ok && b.Kind() == types.Bool {
+						visitedObj = p
+					}
+				}
+			}
+		}
+		ro := c.localExpansionsWith(rinfo, rec.Decl.Body, &canonOpts{subst: map[types.Object]string{}})
+		condOf := func(at ast.Node) *bexpr {
+			conds, okc := c.pathConds(rinfo, rec.Decl.Body, at, true)
+			if !okc {
+				return nil
+			}
+			return c.condsToBexpr(rinfo, conds, ro)
+		}
+		var crossing *bexpr
+		var crossPos token.Pos
+		nRec := 0
+		for _, call := range callsIn(rec.Decl.Body, false) {
+			if calleeOf(rinfo, call) == rec.Obj {
+				nRec++
+				crossing = condOf(call)
+				crossPos = call.Pos()
+			}
+		}
+		if visitedObj != nil && nRec == 1 && crossing != nil {
+			okMark, nMark := true, 0
+			var bad token.Pos
+			ast.Inspect(rec.Decl.Body, func(n ast.Node) bool {
+				as, ok := n.(*ast.AssignStmt)
+				if !ok {
+					return true
+				}
+				for _, l := range as.Lhs {
+					if ix, ok := unparen(l).(*ast.IndexExpr); ok && identObj(rinfo, ix.X) == visitedObj {
+						nMark++
+						code := condOf(as)
+						if code == nil {
+							okMark, bad = false, as.Pos()
+							continue
+						}
+						if eq, _, _, err := gfEquiv(code, crossing); err != nil || !eq {
+							okMark, bad = false, as.Pos()
+						}
+					}
+				}
+				return true
+			})
+			if nMark > 0 {
+				if bad == token.NoPos {
+					bad = crossPos
+				}
+				c.Check(okMark, "SYM", "tree.Tree.cutEdgesMaxLengthRecur/marks-only-crossed", bad, "the fill marks a branch as visited under exactly the condition under which it crosses it", "the flood fill marks a branch as visited under another condition than the one under which it crosses it: a removed branch marked here is skipped by the outer loop and a tip behind it belongs to no group").Clause = clause
+			}
+		}
+	}
 	// kept branch: explored from both ends; removed branch: singleton group for each end that is a tip.
 	// The two regions are told apart by the path condition on the branch length, whatever the shape
 	// of the if/else.
@@ -595,11 +658,30 @@ func (c *Ctx) cutEdges() {
 	okRemoved := true
 	for _, call := range callsIn(loop.Body, false) {
 		fn := calleeOf(info, call)
-		if fn == nil || fn.Name() != "AddTip" || len(call.Args) != 1 {
+		if fn == nil {
+			continue
+		}
+		var added ast.Expr
+		if fn.Name() == "AddTip" && len(call.Args) == 1 {
+			added = call.Args[0]
+		} else if gi := c.FuncOfObj(fn); gi != nil && fn != rec.Obj && gi.Decl.Body != nil && !fn.Exported() && fn.Pkg() == top.Obj.Pkg() {
+			// a helper building the singleton group of its parameter
+			ginfo := gi.Pkg.TypesInfo
+			for _, hc := range callsIn(gi.Decl.Body, false) {
+				if hf := calleeOf(ginfo, hc); hf != nil && hf.Name() == "AddTip" && len(hc.Args) == 1 {
+					for j := range call.Args {
+						if p := paramObj(ginfo, gi.Decl, j); p != nil && identObj(ginfo, hc.Args[0]) == p {
+							added = call.Args[j]
+						}
+					}
+				}
+			}
+		}
+		if added == nil {
 			continue
 		}
 		end := ""
-		switch c.canon(info, call.Args[0], o) {
+		switch c.canon(info, added, o) {
 		case "$E.left":
 			end = "left"
 		case "$E.right":
